@@ -65,8 +65,24 @@ def run(ctx, idx):
 
     load_reach, _lp = idx.reachable(starts)
 
+    def error_path_only(fi, site):
+        """no normal exit of the function is reachable from the lookup: whatever it finds, the call ends in an error"""
+        try:
+            cfg_ = K.cfg_of(idx, fi)
+        except Exception:
+            return False
+        at = [x for x in cfg_.nodes if x.ast is not None and isinstance(x.ast, ast.AST) and any(site is y for y in ast.walk(x.ast))]
+        at += [x for x in cfg_.nodes if isinstance(x.meta.get("value"), ast.AST) and any(site is y for y in ast.walk(x.meta["value"]))]
+        return bool(at) and cfg_.exit not in cfg_.reachable(at)
+
     def off_path(fi, site=None):
         if fi is not None and fi not in on_path and fi.cls is prog:
+            return True
+        if fi is not None and site is not None and fi.cls is prog and error_path_only(fi, site):
+            return True
+        if fi is not None and fi not in load_reach and fi.cls is not None and (fi.cls is prog or A.command in idx.mro(fi.cls)):
+            # in the program or a command, reachable only once the program is loaded: the table is complete, so the order of the
+            # file cannot show in what the lookup finds (what is done with the command found is the business of C01/C12/C14/C20)
             return True
         # while loading: a lookup after every command was added, or one whose 'not found' outcome changes nothing (decided by C02.g)
         return fi is not None and site is not None and fi in load_reach and (_after_loading_loop(fi, site) or _miss_changes_nothing(idx, fi, site))
